@@ -22,7 +22,7 @@ PROPERTY = "C09"
 BUDGET = {"quick": 12000, "thorough": 300000}
 RULE = ("Generated: configurations (max_operations 1..12, error_threshold 1..4, renewal on/off, lifetime 1 h / idle 10 min limits on/off) x up to 25 "
         "ops over start/tick(cost 0..3)/record_error/heartbeat/check_timeouts/renew(amount,reset_errors)/trigger_apoptosis/terminate/reset/clock advance "
-        "(around both limits). Enumerated: all sequences up to depth 3 (quick) / 4 (thorough) over 15 ops x 4 configurations. "
+        "(around both limits). Enumerated: all sequences up to depth 3 (quick) / 4 (thorough) over 16 ops x 4 configurations; clock advances from 0.25 s to 40 days, limits from 30 s to 25 h. "
         "Non-trivial: the history contains a call made off the happy path (tick/error before start, renew while apoptotic/terminated, any call after terminate).")
 ASSUMPTIONS = [
     "reset() starts a new epoch (documented 'for testing') and is not a transition",
@@ -31,12 +31,12 @@ ASSUMPTIONS = [
     "self-transitions reported by the callback (APOPTOTIC->APOPTOTIC, TERMINATED->TERMINATED) are not moves",
 ]
 MIN_NONTRIVIAL_FRACTION = 0.2
-EXHAUSTIVE_NOTE = {"quick": "all op sequences of length 1..3 over 15 ops x 4 configurations (4*(15+225+3375) = 14460 histories), complete",
-                   "thorough": "all op sequences of length 1..4 over 15 ops x 4 configurations (216960 histories), complete"}
+EXHAUSTIVE_NOTE = {"quick": "all op sequences of length 1..3 over 16 ops x 4 configurations (4*(16+256+4096) = 17472 histories), complete",
+                   "thorough": "all op sequences of length 1..4 over 16 ops x 4 configurations (279616 histories), complete"}
 
 _cfg = st.fixed_dictionaries({
     "max_ops": st.integers(1, 12), "err_thr": st.integers(1, 4), "renewal": st.booleans(),
-    "lifetime_h": st.sampled_from([None, 1]), "idle_min": st.sampled_from([None, 10]),
+    "lifetime_h": st.sampled_from([None, 1, 1, 24, 0.5]), "idle_min": st.sampled_from([None, 10, 10, 1500, 0.5]),
 })
 _op = st.one_of(
     st.tuples(st.just("start")),
@@ -50,6 +50,8 @@ _op = st.one_of(
     st.tuples(st.just("terminate")),
     st.tuples(st.just("reset")),
     st.tuples(st.just("adv"), st.sampled_from([60, 599, 600, 601, 3599, 3600, 3601])),
+    # long gaps: a day and more (a timedelta has days, seconds and microseconds - elapsed time must use all of them), sub-second steps
+    st.tuples(st.just("adv"), st.sampled_from([86400, 86400 + 600, 86400 + 30, 2 * 86400 + 1200, 86399, 90000, 40 * 86400 + 5, 0.25, 29.5, 31])),
 ).map(list)
 
 
@@ -64,7 +66,7 @@ _ENUM_CFG = [
     {"max_ops": 20, "err_thr": 2, "renewal": True, "lifetime_h": 1, "idle_min": None},
 ]
 _ENUM_OPS = [["start"], ["tick", 1], ["tick", 0], ["tick", 3], ["error"], ["heartbeat"], ["check"], ["renew", None, True],
-             ["renew", 1, False], ["apoptosis"], ["terminate"], ["reset"], ["adv", 601], ["adv", 3601], ["adv", 599]]
+             ["renew", 1, False], ["apoptosis"], ["terminate"], ["reset"], ["adv", 601], ["adv", 3601], ["adv", 599], ["adv", 86400 + 60]]
 
 
 def enumerate_cases(tier):
